@@ -1244,7 +1244,7 @@ int32 matrixRegisterSession(ssl_t *ssl)
     pList = DLListGetHead(&g_sessionChronList);
     sess = DLListGetContainer(pList, sslSessionEntry_t, chronList);
     id = sess->id;
-    i = (id[3] << 24) + (id[2] << 16) + (id[1] << 8) + id[0];
+    i = ((uint32) id[3] << 24) + ((uint32) id[2] << 16) + ((uint32) id[1] << 8) + id[0];
     if (i >= SSL_SESSION_TABLE_SIZE)
     {
         psUnlockMutex(&g_sessionTableLock);
@@ -1320,7 +1320,7 @@ int32 matrixClearSession(ssl_t *ssl, int32 remove)
     }
     id = ssl->sessionId;
 
-    i = (id[3] << 24) + (id[2] << 16) + (id[1] << 8) + id[0];
+    i = ((uint32) id[3] << 24) + ((uint32) id[2] << 16) + ((uint32) id[1] << 8) + id[0];
     if (i >= SSL_SESSION_TABLE_SIZE)
     {
         return PS_LIMIT_FAIL;
@@ -1376,7 +1376,7 @@ int32 matrixResumeSession(ssl_t *ssl)
     }
     id = ssl->sessionId;
 
-    i = (id[3] << 24) + (id[2] << 16) + (id[1] << 8) + id[0];
+    i = ((uint32) id[3] << 24) + ((uint32) id[2] << 16) + ((uint32) id[1] << 8) + id[0];
     psLockMutex(&g_sessionTableLock);
     if (i >= SSL_SESSION_TABLE_SIZE || g_sessionTable[i].cipher == NULL)
     {
@@ -1452,7 +1452,7 @@ int32 matrixUpdateSession(ssl_t *ssl)
         return PS_LIMIT_FAIL;
     }
     id = ssl->sessionId;
-    i = (id[3] << 24) + (id[2] << 16) + (id[1] << 8) + id[0];
+    i = ((uint32) id[3] << 24) + ((uint32) id[2] << 16) + ((uint32) id[1] << 8) + id[0];
     if (i >= SSL_SESSION_TABLE_SIZE)
     {
         return PS_LIMIT_FAIL;
